@@ -102,6 +102,8 @@ class Lit:
         self.conj, self.const, self.why, self.conj_with = conj, const, why, conj_with
         self.params_big, self.params_small = set(params_big), set(params_small)
         self.optional = optional
+        self.params = set()
+        self.side_check = None  # optional extra predicate (positive-side atoms, negative-side atoms) -> bool
 
 
 def sided_atoms(p: nf.Poly):
@@ -142,7 +144,7 @@ def leaf_matches(leaf: nf.Leaf, lit: Lit) -> Tuple[bool, Optional[str]]:
         return False, None
     p, op = c
     if lit.kind == "eq":
-        if op in ("==0", "!=0") and lit.cells <= _poly_cells(p):
+        if op in ("==0", "!=0") and lit.cells <= _poly_cells(p) and lit.params <= _poly_params(p):
             return True, None
         return False, None
     if lit.kind == "cmp":
@@ -150,6 +152,10 @@ def leaf_matches(leaf: nf.Leaf, lit: Lit) -> Tuple[bool, Optional[str]]:
             return False, None
         pos_c, neg_c, pos_p, neg_p = sided_atoms(p)
         if lit.big <= pos_c and lit.small <= neg_c and lit.params_big <= pos_p and lit.params_small <= neg_p:
+            if lit.side_check is not None and not lit.side_check(p.side_atoms(True), p.side_atoms(False)):
+                if lit.side_check(p.side_atoms(False), p.side_atoms(True)):
+                    return False, "reversed"
+                return False, None
             return True, None
         # the same cells on the opposite sides: a reversed comparison
         if (lit.big or lit.small) and lit.big <= neg_c and lit.small <= pos_c and lit.params_big <= neg_p and lit.params_small <= pos_p:
@@ -177,6 +183,28 @@ def _single_column(idx) -> bool:
     return False
 
 
+def tail_vs_head(pos_atoms, neg_atoms) -> bool:
+    """PDP data convention: pickups are nodes 1..n/2, deliveries n/2+1..n.  The positive side
+    must be indexed by an open-ended tail slice (deliveries), the negative side by a bounded
+    slice (pickups)."""
+    def slices(atoms_):
+        out = []
+        for a in atoms_:
+            for n in vg.walk(a):
+                if n.op == "slice":
+                    out.append((not (vg.is_const(n.args[0]) and n.args[0].args[0] is None), not (vg.is_const(n.args[1]) and n.args[1].args[0] is None)))
+        return out
+    ps, ns = slices(pos_atoms), slices(neg_atoms)
+    return any(lo and not hi for lo, hi in ps) and any(hi for lo, hi in ns) and not any(lo and not hi for lo, hi in ns)
+
+
+def _poly_params(p: nf.Poly) -> set:
+    out = set()
+    for a in p.atoms():
+        out |= vg.params_of(a)
+    return out
+
+
 def _poly_cells(p: nf.Poly) -> set:
     out = set()
     for a in p.atoms():
@@ -184,7 +212,7 @@ def _poly_cells(p: nf.Poly) -> set:
     return out
 
 
-def find_literal(leaves: List[nf.Leaf], lit: Lit, need_sign=True):
+def find_literal(leaves: List[nf.Leaf], lit: Lit, need_sign=True, allow_reduced=False):
     """-> (matching leaves in required position, matching leaves elsewhere, reversed leaves)"""
     good, elsewhere, rev = [], [], []
     for l in leaves:
@@ -201,7 +229,7 @@ def find_literal(leaves: List[nf.Leaf], lit: Lit, need_sign=True):
             if c is None or c[1] != lit.op:
                 elsewhere.append(l)
                 continue
-        if lit.conj and not (l.conj and not l.reduced):
+        if lit.conj and not (l.conj and (allow_reduced or not l.reduced)):
             elsewhere.append(l)
             continue
         if l.sign == 0:
